@@ -89,6 +89,8 @@ var gens = []generator{
 	{file: "GbFields.lean", src: "seqio/genbank.go (GenBankFields.ID, GenBankFields.String)", run: genGbFields},
 	{file: "GenBankWrite.lean", src: "seqio/genbank.go (GenBank.String)", run: genGenBankWrite},
 	{file: "GbSlice.lean", src: "seqio/genbank.go (GenBankFields.Slice)", run: genGbSlice},
+	{file: "IoDelegateFacts.lean", src: "cmd/gts/io.go (the cache protocol: newIODelegate, TryCache, Write, Commit, Close as facts)", run: genIoDelegateFacts},
+	{file: "IoDelegate.lean", src: "cmd/gts/io.go (gtsCacheDir, newIODelegate, Commit, Write, Close, TryCache as functions over I/O primitives)", run: genIoDelegateFn},
 }
 
 func writeIfChanged(path string, content []byte) (bool, error) {
